@@ -35,6 +35,7 @@ package http2
 //@ -- C05: request header names reach the handler in canonical form, whatever the state of the per-connection cache
 //@ pure func commonOK() bool = commonCanonHeader != nil && (forall k string :: mapHas(commonCanonHeader, k) ==> mapGet(commonCanonHeader, k) == canon(k))
 //@ pure func cacheOK(sc *serverConn) bool = forall k string :: mapHas(sc.canonHeader, k) ==> mapGet(sc.canonHeader, k) == canon(k)
+//@ pure func hdrCacheOK(sc *serverConn) bool = sc.canonHeader != nil ==> cacheOK(sc) && sc.canonHeader != commonCanonHeader && sc.canonHeader != commonLowerHeader
 //@ func buildCommonHeaderMaps
 //@   props C05
 //@   assigns commonLowerHeader, commonCanonHeader, mapOf(commonLowerHeader), mapOf(commonCanonHeader)
@@ -160,6 +161,7 @@ package http2
 //@ func WriteScheduler.AdjustStream :: ws, streamID, priority
 //@   trusted
 //@   assigns unrestricted
+//@   ensures forall s *serverConn :: old(hdrCacheOK(s)) ==> hdrCacheOK(s)
 //@ func (*Server).afterFunc :: s, d, f -> t
 //@   trusted
 //@   assigns nothing
@@ -173,10 +175,12 @@ package http2
 //@ func (*stream).processTrailerHeaders :: st, f -> err
 //@   trusted
 //@   assigns unrestricted
+//@ -- creating a stream / re-prioritising do not touch the canonical-header cache or the common tables (assumed)
 //@ func (*serverConn).newStream :: sc, id, pusherID, state -> st
 //@   trusted
 //@   assigns unrestricted
 //@   ensures st != nil && st.id == id
+//@   ensures forall s *serverConn :: old(hdrCacheOK(s)) ==> hdrCacheOK(s)
 //@ func (*serverConn).checkPriority :: sc, streamID, p -> err
 //@   trusted
 //@   assigns nothing
@@ -228,7 +232,7 @@ package http2
 
 //@ func (*serverConn).processHeaders :: sc, f -> err
 //@   props C13,C10
-//@   requires sc != nil && f != nil && f.HeadersFrame != nil && sc.streams != nil && sc.hs != nil && sc.srv != nil && sc.handler != nil && sc.conn != nil && sc.writeSched != nil && sc.curClientStreams < 4294967295
+//@   requires sc != nil && f != nil && f.HeadersFrame != nil && sc.streams != nil && sc.hs != nil && sc.srv != nil && sc.handler != nil && sc.conn != nil && sc.writeSched != nil && sc.curClientStreams < 4294967295 && hdrCacheOK(sc)
 //@   assigns unrestricted, procLog, handlerStarts
 //@   ghostset procLog = procLog ++ seq[int]{1}
 //@   ensures procLog == old(procLog) ++ seq[int]{1}
@@ -240,7 +244,7 @@ package http2
 //@   ensures [C13:concurrency-limit-refuses-the-stream-without-a-handler] old(f.HeadersFrame.FrameHeader.StreamID) % 2 == 1 && !(old(mapHas(sc.streams, f.HeadersFrame.FrameHeader.StreamID)) && old(mapGet(sc.streams, f.HeadersFrame.FrameHeader.StreamID)) != nil) && old(f.HeadersFrame.FrameHeader.StreamID) > old(sc.maxClientStreamID) && old(sc.curClientStreams) + 1 > old(sc.advMaxStreams) ==> err.(StreamError) && handlerStarts == old(handlerStarts)
 
 //@ -- what the serve loop maintains between frames, and what the framer guarantees about a frame it hands over
-//@ pure func connInv(sc *serverConn) bool = streamsOK(sc) && inflowOK(sc.inflow) && (forall id uint32 :: mapHas(sc.streams, id) ==> inflowOK(mapGet(sc.streams, id).inflow)) && (forall id uint32 :: mapHas(sc.streams, id) && mapGet(sc.streams, id).state == 1 ==> mapGet(sc.streams, id).body != nil) && connLedger(sc) <= 2147483647 && owedByBodies >= 0 && sc.hs != nil && sc.srv != nil && sc.handler != nil && sc.conn != nil && sc.writeSched != nil && sc.curClientStreams < 4294967295
+//@ pure func connInv(sc *serverConn) bool = streamsOK(sc) && inflowOK(sc.inflow) && (forall id uint32 :: mapHas(sc.streams, id) ==> inflowOK(mapGet(sc.streams, id).inflow)) && (forall id uint32 :: mapHas(sc.streams, id) && mapGet(sc.streams, id).state == 1 ==> mapGet(sc.streams, id).body != nil) && connLedger(sc) <= 2147483647 && owedByBodies >= 0 && sc.hs != nil && sc.srv != nil && sc.handler != nil && sc.conn != nil && sc.writeSched != nil && sc.curClientStreams < 4294967295 && hdrCacheOK(sc)
 //@ pure func frameWF(f Frame) bool = (isptr(DataFrame, f) ==> unboxptr(DataFrame, f).FrameHeader.valid && len(unboxptr(DataFrame, f).data) <= unboxptr(DataFrame, f).FrameHeader.Length && unboxptr(DataFrame, f).FrameHeader.Length <= 16777215)
 
 //@ -- C12, client transport: one piece of request body never exceeds the stream/connection windows, the caller's
